@@ -192,3 +192,21 @@ def pmap(func, items, nproc=None, timeout=120.0, init=None):
 def chunks(n, size):
     """[(lo, hi), ...] covering range(n)."""
     return [(lo, min(n, lo + size)) for lo in range(0, n, size)]
+
+
+def pmap_split(work, n, chunk, timeout=120.0, init=None):
+    """work((lo, hi)) over chunks of range(n); a chunk whose worker hangs/crashes is re-run one case at a
+    time so the failure is attributed to a single case.  Returns [((lo, hi), result-or-Crash), ...]."""
+    jobs = chunks(n, chunk)
+    res = pmap(work, jobs, timeout=timeout, init=init)
+    out, retry = [], []
+    for job, r in zip(jobs, res):
+        if isinstance(r, Crash) and job[1] - job[0] > 1:
+            retry.extend((i, i + 1) for i in range(job[0], job[1]))
+        else:
+            out.append((job, r))
+    if retry:
+        res2 = pmap(work, retry, timeout=timeout, init=init)
+        out.extend(zip(retry, res2))
+    out.sort(key=lambda jr: jr[0][0])
+    return out
